@@ -261,18 +261,174 @@ theorem write_inv (s : St) (δ : Index) (h : Inv s) : Inv (write s δ) := by
   · simp [h1]
   · simp [h1]
 
+
+/-! ### supervoxel split -/
+
+theorem nodup_eraseDups_aux {α : Type} [BEq α] [LawfulBEq α] : ∀ (n : Nat) (l : List α), l.length ≤ n → l.eraseDups.Nodup := by
+  intro n
+  induction n with
+  | zero => intro l hl; cases l with
+    | nil => simp
+    | cons a t => simp at hl
+  | succ n ih =>
+    intro l hl
+    cases l with
+    | nil => simp
+    | cons a t =>
+      rw [List.eraseDups_cons]
+      refine List.nodup_cons.2 ⟨?_, ?_⟩
+      · intro h
+        have := List.mem_eraseDups.1 h
+        simp at this
+      · apply ih
+        have := List.length_filter_le (fun b => !b == a) t
+        simp only [List.length_cons] at hl
+        omega
+
+theorem nodup_eraseDups {α : Type} [BEq α] [LawfulBEq α] (l : List α) : l.eraseDups.Nodup :=
+  nodup_eraseDups_aux l.length l (Nat.le_refl _)
+
+/-- the split counts handed in for one block -/
+def splitIn (sc : List (Nat × Int)) (blk : Nat) : Int := ((sc.filter fun p => p.1 == blk).map (·.2)).sum
+
+/-- blocks in which the index has an entry for the supervoxel -/
+def svBlocks (idx : Index) (sv : Nat) : List Nat := ((idx.filter fun e => e.1.2 == sv).map (·.1.1)).eraseDups
+
+theorem cnt_zero_of_not_svBlock (idx : Index) (sv blk : Nat) (h : blk ∉ svBlocks idx sv) : cnt idx (blk, sv) = 0 := by
+  unfold cnt
+  have : (idx.filter fun e => e.1 == (blk, sv)) = [] := by
+    apply List.filter_eq_nil_iff.2
+    intro e he hk
+    apply h
+    unfold svBlocks
+    rw [List.mem_eraseDups]
+    have hk' : e.1 = (blk, sv) := by simpa using hk
+    exact List.mem_map.2 ⟨e, List.mem_filter.2 ⟨he, by simp [hk']⟩, by simp [hk']⟩
+  rw [this]; rfl
+
+/-- **`splitSupervoxelIndex`**: the supervoxel's counts are replaced, block by block, by the split's and the
+    remainder's; every other supervoxel keeps its counts -/
+theorem splitSV_cnt (idx : Index) (sv sp rm : Nat) (sc : List (Nat × Int)) (hsp : sp ≠ sv) (hrm : rm ≠ sv)
+    (hsr : sp ≠ rm) (blk x : Nat) :
+    cnt (splitSV idx sv sp rm sc) (blk, x) =
+      (if x = sv then 0 else cnt idx (blk, x)) +
+      (if blk ∈ svBlocks idx sv then
+        (if x = sp then splitIn sc blk else 0) + (if x = rm then cnt idx (blk, sv) - splitIn sc blk else 0)
+       else 0) := by
+  unfold splitSV
+  simp only
+  rw [cnt_append, cnt_flatMap]
+  have h1 := cnt_filter_sv idx (fun s => s != sv) (blk, x)
+  simp only at h1
+  rw [h1]
+  have hfold : ∀ b', cnt [((b', sp), splitIn sc b'), ((b', rm), cnt idx (b', sv) - splitIn sc b')] (blk, x) =
+      if blk = b' then ((if x = sp then splitIn sc blk else 0) + (if x = rm then cnt idx (blk, sv) - splitIn sc blk else 0)) else 0 := by
+    intro b'
+    rw [cnt_cons, cnt_cons, cnt_nil]
+    by_cases hb : blk = b'
+    · subst hb
+      by_cases e1 : x = sp
+      · subst e1; simp [hsr, Ne.symm hsr]
+      · by_cases e2 : x = rm
+        · subst e2; simp [hsr, Ne.symm hsr]
+        · simp [e1, e2, Ne.symm e1, Ne.symm e2]
+    · have n1 : ¬ ((b', sp) = (blk, x)) := by intro e; exact hb (by simpa using (Prod.mk.inj e).1.symm)
+      have n2 : ¬ ((b', rm) = (blk, x)) := by intro e; exact hb (by simpa using (Prod.mk.inj e).1.symm)
+      simp [n1, n2, hb]
+  have hmap : ((((idx.filter fun e => e.1.2 == sv).map (·.1.1)).eraseDups).map fun b' =>
+      cnt [((b', sp), ((sc.filter fun p => p.1 == b').map (·.2)).sum),
+           ((b', rm), cnt idx (b', sv) - ((sc.filter fun p => p.1 == b').map (·.2)).sum)] (blk, x)) =
+      ((svBlocks idx sv).map fun b' => if blk = b' then
+        ((if x = sp then splitIn sc blk else 0) + (if x = rm then cnt idx (blk, sv) - splitIn sc blk else 0)) else 0) := by
+    unfold svBlocks
+    apply List.map_congr_left
+    intro b' _
+    exact hfold b'
+  rw [hmap, sum_indicator (svBlocks idx sv) (by unfold svBlocks; exact nodup_eraseDups _)]
+  by_cases hx : x = sv
+  · subst hx; simp
+  · simp [hx]
+
+/-- supervoxel split: the voxels of `sv` are relabelled `sp` (the split part, `sc blk` voxels in block `blk`) and
+    `rm` (the rest); both new supervoxels belong to the body of `sv`; the body's index is rewritten by
+    `splitSupervoxelIndex` -/
+def splitSVOp (s : St) (sv sp rm : Nat) (sc : List (Nat × Int)) : St :=
+  { occ := fun blk x =>
+      if x = sv then 0 else if x = sp then splitIn sc blk else if x = rm then s.occ blk sv - splitIn sc blk else s.occ blk x
+    body := fun x => if x = sp ∨ x = rm then s.body sv else s.body x
+    idx := fun b => if b = s.body sv then splitSV (s.idx b) sv sp rm sc else s.idx b }
+
+/-- **a supervoxel split keeps the indices equal to the voxel scan under the mapping**, for fresh split and
+    remainder ids and split counts that only name blocks holding voxels of the supervoxel -/
+theorem splitSV_inv (s : St) (sv sp rm : Nat) (sc : List (Nat × Int)) (hsp : sp ≠ sv) (hrm : rm ≠ sv) (hsr : sp ≠ rm)
+    (hfs : ∀ blk, s.occ blk sp = 0) (hfr : ∀ blk, s.occ blk rm = 0)
+    (hsc : ∀ blk, s.occ blk sv = 0 → splitIn sc blk = 0) (h : Inv s) : Inv (splitSVOp s sv sp rm sc) := by
+  have hI : ∀ b blk x, cnt (s.idx b) (blk, x) = if s.body x = b then s.occ blk x else 0 := h
+  intro b blk x
+  unfold splitSVOp
+  simp only
+  by_cases hb : b = s.body sv
+  · subst hb
+    simp only [if_true]
+    rw [splitSV_cnt _ _ _ _ _ hsp hrm hsr]
+    -- outside the supervoxel's blocks nothing of it is stored and nothing is split
+    have hout : blk ∉ svBlocks (s.idx (s.body sv)) sv → s.occ blk sv = 0 := by
+      intro hn
+      have := cnt_zero_of_not_svBlock _ _ _ hn
+      rw [hI] at this; simpa using this
+    by_cases hx : x = sv
+    · subst hx
+      simp only [if_true, hsp.symm, hrm.symm, if_false, Int.add_zero, Int.zero_add]
+      split <;> simp [hsp.symm, hrm.symm]
+    · by_cases e1 : x = sp
+      · subst e1
+        simp only [hx, if_false, hsr, true_or, if_true, hI, hfs]
+        by_cases hm : blk ∈ svBlocks (s.idx (s.body sv)) sv
+        · simp [hm]
+        · simp [hm, hsc blk (hout hm)]
+      · by_cases e2 : x = rm
+        · subst e2
+          simp only [hx, if_false, e1, or_true, if_true, hI, hfr]
+          by_cases hm : blk ∈ svBlocks (s.idx (s.body sv)) sv
+          · simp [hm]
+          · simp [hm, hsc blk (hout hm), hout hm]
+        · simp only [hx, e1, e2, if_false, or_self, hI]
+          split <;> simp
+  · simp only [hb, if_false, hI]
+    by_cases hx : x = sv
+    · subst hx
+      have : ¬ s.body x = b := fun e => hb e.symm
+      simp [this, hsp.symm, hrm.symm]
+    · by_cases e1 : x = sp
+      · subst e1
+        have : ¬ s.body sv = b := fun e => hb e.symm
+        simp [this, hfs]
+      · by_cases e2 : x = rm
+        · subst e2
+          have : ¬ s.body sv = b := fun e => hb e.symm
+          simp [this, hfr]
+        · simp [hx, e1, e2]
+
+example : cnt (splitSV [((1, 7), 10), ((2, 7), 4), ((1, 9), 3)] 7 20 21 [(1, 6)]) (1, 20) = 6 ∧
+    cnt (splitSV [((1, 7), 10), ((2, 7), 4), ((1, 9), 3)] 7 20 21 [(1, 6)]) (1, 21) = 4 ∧
+    cnt (splitSV [((1, 7), 10), ((2, 7), 4), ((1, 9), 3)] 7 20 21 [(1, 6)]) (2, 21) = 4 ∧
+    cnt (splitSV [((1, 7), 10), ((2, 7), 4), ((1, 9), 3)] 7 20 21 [(1, 6)]) (1, 7) = 0 := by decide
+
+
 /-- operations of a history -/
 inductive Op where
   | merge (target : Nat) (ms : List Nat)
   | cleave (b0 : Nat) (svs : List Nat) (nl : Nat)
   | renumber (old nl : Nat)
   | write (δ : Index)
+  | splitsv (sv sp rm : Nat) (sc : List (Nat × Int))
 
 def step (s : St) : Op → St
   | .merge t ms => merge s t ms
   | .cleave b0 svs nl => cleaveOp s b0 svs nl
   | .renumber old nl => renumber s old nl
   | .write δ => write s δ
+  | .splitsv sv sp rm sc => splitSVOp s sv sp rm sc
 
 /-- what the API requires of an operation in the state it meets: merged bodies are distinct and do not include
     the target; cleave and renumber create a label no supervoxel is mapped to -/
@@ -281,6 +437,8 @@ def Op.Ok (s : St) : Op → Prop
   | .cleave b0 _ nl => nl ≠ b0 ∧ ∀ sv, s.body sv ≠ nl
   | .renumber old nl => nl ≠ old ∧ ∀ sv, s.body sv ≠ nl
   | .write _ => True
+  | .splitsv sv sp rm sc => sp ≠ sv ∧ rm ≠ sv ∧ sp ≠ rm ∧ (∀ blk, s.occ blk sp = 0) ∧ (∀ blk, s.occ blk rm = 0) ∧
+      (∀ blk, s.occ blk sv = 0 → splitIn sc blk = 0)
 
 def Run (s : St) : List Op → Prop
   | [] => True
@@ -298,6 +456,7 @@ theorem history_inv (ops : List Op) (s : St) (h : Inv s) (hr : Run s ops) : Inv 
     | merge t ms => exact merge_inv s t ms hok.1 hok.2 h
     | cleave b0 svs nl => exact cleave_inv s b0 svs nl hok.1 hok.2 h
     | renumber old nl => exact renumber_inv s old nl hok.1 hok.2 h
+    | splitsv sv sp rm sc => exact splitSV_inv s sv sp rm sc hok.1 hok.2.1 hok.2.2.1 hok.2.2.2.1 hok.2.2.2.2.1 hok.2.2.2.2.2 h
     | write δ => exact write_inv s δ h
 
 /-- the empty instance satisfies the invariant -/
